@@ -5,6 +5,7 @@ pub mod c03;
 pub mod c04;
 pub mod c05;
 pub mod c06;
+pub mod c07;
 pub mod c08;
 pub mod c09;
 pub mod c10;
@@ -28,6 +29,7 @@ pub fn dispatch(ctx: &Ctx, findings: &Findings) -> Option<PropReport> {
         "C04" => c04::run(ctx, findings),
         "C05" => c05::run(ctx, findings),
         "C06" => c06::run(ctx, findings),
+        "C07" => c07::run_prop(ctx, findings),
         "C08" => c08::run(ctx, findings),
         "C09" => c09::run(ctx, findings),
         "C10" => c10::run(ctx, findings),
